@@ -66,7 +66,7 @@ klass('KFACBaseLayer', {
     '_a_factor': TF, '_g_factor': TF, '_grad': TF,      # Tensor | Future | None (type invariant)
     # ghost fields (specification only; written by the ghost_sets of compute_a_inv / compute_g_inv): which
     # factor tensor the current second-order data was computed from, and with which damping value
-    'gh_a_from': T_, 'gh_g_from': T_, 'gh_a_damping': KDyn, 'gh_g_damping': KDyn,
+    'gh_a_from': T_, 'gh_g_from': T_, 'gh_a_damping': KDyn, 'gh_g_damping': KDyn, 'gh_pg_damping': KDyn,
 })
 klass('KFACEigenLayer', {'prediv_eigenvalues': KBool, '_qa': TF, '_qg': TF, '_da': TF, '_dg': TF, '_dgda': TF})
 klass('KFACInverseLayer', {'_a_inv': TF, '_g_inv': TF})
